@@ -33,6 +33,18 @@ pub struct CtSpec {
     pub lex_case_insensitive: Option<bool>,
     pub lex_posix_escapes: Option<bool>,
     pub lex_allow_wholeline_comments: Option<bool>,
+    /// tokens of the grammar without a lexer rule are an error (the builder's default)
+    #[serde(default)]
+    pub strict_terms_in_lexer: Option<bool>,
+    /// lexer rules naming a token the grammar lacks are an error (show_warnings + warnings_are_errors)
+    #[serde(default)]
+    pub strict_tokens_in_parser: Option<bool>,
+    /// one call: CTLexerBuilder::lrpar_config(..).build() instead of the two builders in turn
+    #[serde(default)]
+    pub combined: Option<bool>,
+    /// lexer only, with this user-supplied rule_ids_map (names may share an id)
+    #[serde(default)]
+    pub lexer_only_rule_ids: Option<Vec<(String, u32)>>,
 }
 
 #[derive(Serialize, Deserialize, Clone, Debug, Default, PartialEq)]
@@ -43,6 +55,8 @@ pub struct CtResult {
     pub lexer_ok: bool,
     pub lexer_error: Option<String>,
     pub panicked: Option<String>,
+    #[serde(default)]
+    pub combined: bool,
 }
 
 fn kind_of(s: &str) -> YaccKind {
@@ -54,109 +68,148 @@ fn kind_of(s: &str) -> YaccKind {
     }
 }
 
-pub fn ct_build(spec: &CtSpec) -> CtResult {
-    let mut res = CtResult::default();
-    let r = crate::exec::catch(|| {
-        let mut pb = CTParserBuilder::<DefaultLexerTypes<u32>>::new()
-            .grammar_path(PathBuf::from(&spec.grammar_path))
-            .output_path(PathBuf::from(&spec.parser_out));
-        if let Some(k) = &spec.yacckind {
-            pb = pb.yacckind(kind_of(k));
-        }
-        if let Some(r) = &spec.recoverer {
-            pb = pb.recoverer(if r == "None" { RecoveryKind::None } else { RecoveryKind::CPCTPlus });
-        }
-        if let Some(v) = &spec.visibility {
-            pb = pb.visibility(match v.as_str() {
-                "Public" => lrpar::Visibility::Public,
-                "PublicCrate" => lrpar::Visibility::PublicCrate,
-                "PublicSuper" => lrpar::Visibility::PublicSuper,
-                _ => lrpar::Visibility::Private,
-            });
-        }
-        if let Some(e) = spec.edition {
-            pb = pb.rust_edition(match e {
-                2015 => lrpar::RustEdition::Rust2015,
-                2018 => lrpar::RustEdition::Rust2018,
-                _ => lrpar::RustEdition::Rust2021,
-            });
-        }
-        if let Some(s) = &spec.serialisation {
-            pb = pb.serialisation_format(if s == "Fixed" {
-                lrpar::ctbuilder::SerialisationFormat::FixedSizeInteger
-            } else {
-                lrpar::ctbuilder::SerialisationFormat::VariableSizedInteger
-            });
-        }
-        if let Some(m) = &spec.parser_mod_name {
-            pb = pb.mod_name(m);
-        }
-        if let Some(b) = spec.error_on_conflicts {
-            pb = pb.error_on_conflicts(b);
-        }
-        if let Some(b) = spec.warnings_are_errors {
-            pb = pb.warnings_are_errors(b);
-        }
-        pb = pb.show_warnings(spec.show_warnings.unwrap_or(false));
-        let mut out = CtResult::default();
-        match pb.build() {
-            Err(e) => {
-                out.parser_error = Some(e.to_string());
-                return out;
-            }
-            Ok(ctp) => {
-                out.parser_ok = true;
-                out.regenerated = Some(ctp.regenerated());
-                let mut lb = CTLexerBuilder::<DefaultLexerTypes<u32>>::new_with_lexemet()
-                    .lexer_path(PathBuf::from(&spec.lexer_path))
-                    .output_path(PathBuf::from(&spec.lexer_out))
-                    .rule_ids_map(ctp.token_map())
-                    .allow_missing_terms_in_lexer(true)
-                    .allow_missing_tokens_in_parser(true)
-                    .show_warnings(false);
-                if let Some(m) = &spec.lexer_mod_name {
-                    lb = lb.mod_name(m);
-                }
-                if let Some(v) = &spec.visibility {
-                    lb = lb.visibility(match v.as_str() {
-                        "Public" => lrlex::Visibility::Public,
-                        "PublicCrate" => lrlex::Visibility::PublicCrate,
-                        "PublicSuper" => lrlex::Visibility::PublicSuper,
-                        _ => lrlex::Visibility::Private,
-                    });
-                }
-                if let Some(e) = spec.edition {
-                    lb = lb.rust_edition(match e {
-                        2015 => lrlex::RustEdition::Rust2015,
-                        2018 => lrlex::RustEdition::Rust2018,
-                        _ => lrlex::RustEdition::Rust2021,
-                    });
-                }
-                if let Some(b) = spec.lex_dot_matches_new_line {
-                    lb = lb.dot_matches_new_line(b);
-                }
-                if let Some(b) = spec.lex_case_insensitive {
-                    lb = lb.case_insensitive(b);
-                }
-                if let Some(b) = spec.lex_posix_escapes {
-                    lb = lb.posix_escapes(b);
-                }
-                if let Some(b) = spec.lex_allow_wholeline_comments {
-                    lb = lb.allow_wholeline_comments(b);
-                }
-                match lb.build() {
-                    Ok(_) => out.lexer_ok = true,
-                    Err(e) => out.lexer_error = Some(e.to_string()),
-                }
-            }
-        }
-        out
-    });
-    match r {
-        Ok(o) => res = o,
-        Err(p) => res.panicked = Some(p.detail()),
+fn parser_opts<'a>(mut pb: CTParserBuilder<'a, DefaultLexerTypes<u32>>, spec: &CtSpec) -> CTParserBuilder<'a, DefaultLexerTypes<u32>> {
+    pb = pb.grammar_path(PathBuf::from(&spec.grammar_path)).output_path(PathBuf::from(&spec.parser_out));
+    if let Some(k) = &spec.yacckind {
+        pb = pb.yacckind(kind_of(k));
     }
-    res
+    if let Some(r) = &spec.recoverer {
+        pb = pb.recoverer(if r == "None" { RecoveryKind::None } else { RecoveryKind::CPCTPlus });
+    }
+    if let Some(v) = &spec.visibility {
+        pb = pb.visibility(match v.as_str() {
+            "Public" => lrpar::Visibility::Public,
+            "PublicCrate" => lrpar::Visibility::PublicCrate,
+            "PublicSuper" => lrpar::Visibility::PublicSuper,
+            _ => lrpar::Visibility::Private,
+        });
+    }
+    if let Some(e) = spec.edition {
+        pb = pb.rust_edition(match e {
+            2015 => lrpar::RustEdition::Rust2015,
+            2018 => lrpar::RustEdition::Rust2018,
+            _ => lrpar::RustEdition::Rust2021,
+        });
+    }
+    if let Some(s) = &spec.serialisation {
+        pb = pb.serialisation_format(if s == "Fixed" {
+            lrpar::ctbuilder::SerialisationFormat::FixedSizeInteger
+        } else {
+            lrpar::ctbuilder::SerialisationFormat::VariableSizedInteger
+        });
+    }
+    if let Some(m) = &spec.parser_mod_name {
+        pb = pb.mod_name(Box::leak(m.clone().into_boxed_str()));
+    }
+    if let Some(b) = spec.error_on_conflicts {
+        pb = pb.error_on_conflicts(b);
+    }
+    if let Some(b) = spec.warnings_are_errors {
+        pb = pb.warnings_are_errors(b);
+    }
+    pb.show_warnings(spec.show_warnings.unwrap_or(false))
+}
+
+fn lexer_opts<'a>(mut lb: CTLexerBuilder<'a, DefaultLexerTypes<u32>>, spec: &CtSpec) -> CTLexerBuilder<'a, DefaultLexerTypes<u32>> {
+    lb = lb.lexer_path(PathBuf::from(&spec.lexer_path)).output_path(PathBuf::from(&spec.lexer_out));
+    if let Some(m) = &spec.lexer_mod_name {
+        lb = lb.mod_name(Box::leak(m.clone().into_boxed_str()));
+    }
+    if let Some(v) = &spec.visibility {
+        lb = lb.visibility(match v.as_str() {
+            "Public" => lrlex::Visibility::Public,
+            "PublicCrate" => lrlex::Visibility::PublicCrate,
+            "PublicSuper" => lrlex::Visibility::PublicSuper,
+            _ => lrlex::Visibility::Private,
+        });
+    }
+    if let Some(e) = spec.edition {
+        lb = lb.rust_edition(match e {
+            2015 => lrlex::RustEdition::Rust2015,
+            2018 => lrlex::RustEdition::Rust2018,
+            _ => lrlex::RustEdition::Rust2021,
+        });
+    }
+    if let Some(b) = spec.lex_dot_matches_new_line {
+        lb = lb.dot_matches_new_line(b);
+    }
+    if let Some(b) = spec.lex_case_insensitive {
+        lb = lb.case_insensitive(b);
+    }
+    if let Some(b) = spec.lex_posix_escapes {
+        lb = lb.posix_escapes(b);
+    }
+    if let Some(b) = spec.lex_allow_wholeline_comments {
+        lb = lb.allow_wholeline_comments(b);
+    }
+    // the two consistency checks between lexer and grammar: lenient unless asked for
+    lb = lb.allow_missing_terms_in_lexer(!spec.strict_terms_in_lexer.unwrap_or(false));
+    if spec.strict_tokens_in_parser.unwrap_or(false) {
+        lb = lb.allow_missing_tokens_in_parser(false).show_warnings(true).warnings_are_errors(true);
+    } else {
+        lb = lb.allow_missing_tokens_in_parser(true).show_warnings(false);
+    }
+    lb
+}
+
+pub fn ct_build(spec: &CtSpec) -> CtResult {
+    let mut out = CtResult::default();
+    if let Some(ids) = &spec.lexer_only_rule_ids {
+        let sp = spec.clone();
+        let map: std::collections::HashMap<String, u32> = ids.iter().cloned().collect();
+        match crate::exec::catch(move || {
+            let lb = CTLexerBuilder::<DefaultLexerTypes<u32>>::new_with_lexemet().rule_ids_map(map);
+            lexer_opts(lb, &sp).build().map(|_| ()).map_err(|e| e.to_string())
+        }) {
+            Ok(Ok(())) => out.lexer_ok = true,
+            Ok(Err(e)) => out.lexer_error = Some(e),
+            Err(p) => out.panicked = Some(p.detail()),
+        }
+        return out;
+    }
+    if spec.combined.unwrap_or(false) {
+        // the documented one-call flow: the lexer builder drives the parser builder
+        out.combined = true;
+        let sp = spec.clone();
+        let r = crate::exec::catch(move || {
+            let sp2 = sp.clone();
+            let lb = CTLexerBuilder::<DefaultLexerTypes<u32>>::new_with_lexemet().lrpar_config(move |pb| parser_opts(pb, &sp2));
+            lexer_opts(lb, &sp).build().map(|_| ()).map_err(|e| e.to_string())
+        });
+        match r {
+            Ok(Ok(())) => {
+                out.parser_ok = true;
+                out.lexer_ok = true;
+            }
+            Ok(Err(e)) => out.lexer_error = Some(e),
+            Err(p) => out.panicked = Some(p.detail()),
+        }
+        return out;
+    }
+    let sp = spec.clone();
+    let ctp = match crate::exec::catch(move || parser_opts(CTParserBuilder::<DefaultLexerTypes<u32>>::new(), &sp).build().map_err(|e| e.to_string())) {
+        Ok(Ok(ctp)) => ctp,
+        Ok(Err(e)) => {
+            out.parser_error = Some(e);
+            return out;
+        }
+        Err(p) => {
+            out.panicked = Some(p.detail());
+            return out;
+        }
+    };
+    out.parser_ok = true;
+    out.regenerated = Some(ctp.regenerated());
+    let sp = spec.clone();
+    match crate::exec::catch(move || {
+        let lb = CTLexerBuilder::<DefaultLexerTypes<u32>>::new_with_lexemet().rule_ids_map(ctp.token_map());
+        lexer_opts(lb, &sp).build().map(|_| ()).map_err(|e| e.to_string())
+    }) {
+        Ok(Ok(())) => out.lexer_ok = true,
+        Ok(Err(e)) => out.lexer_error = Some(e),
+        Err(p) => out.panicked = Some(p.detail()),
+    }
+    out
 }
 
 /// `gtv ctstep`: spec as JSON on stdin, result as JSON on stdout (last line).
